@@ -88,7 +88,7 @@ type pathState struct {
 	cached     map[*value]bool
 	cachedMaps map[*omap]bool
 	dom        map[*smt.Term]*byteDom
-	multi      bool
+	entangled  map[*smt.Term]bool
 }
 
 func (p *pathState) prefixCopyWith(v int64) []int64 {
@@ -179,6 +179,10 @@ func (i *interpreter) decideBool(c *smt.Term) bool {
 		case 3:
 			choice = true
 			p.newWork = append(p.newWork, p.prefixCopyWith(0))
+		}
+		if dv == 0 && i.cfg.Verbose && dbgCount < 60 {
+			dbgCount++
+			debugf("[solver-decision] vars=%d %s\n", len(i.termVars(c)), c.String())
 		}
 		if dv != 0 {
 			// decided without the solver
@@ -746,7 +750,7 @@ func (i *interpreter) RunPath(fn *ssa.Function, prefix []int64, wantWitness bool
 	}
 	i.resetVolatile()
 	res = &PathResult{}
-	i.p = &pathState{prefix: prefix, pcset: map[int]bool{}, reach: map[string]bool{}, res: res, dom: map[*smt.Term]*byteDom{}}
+	i.p = &pathState{prefix: prefix, pcset: map[int]bool{}, reach: map[string]bool{}, res: res, dom: map[*smt.Term]*byteDom{}, entangled: map[*smt.Term]bool{}}
 	i.depth = 0
 	i.sched = newScheduler(i)
 	defer func() {
@@ -818,6 +822,8 @@ func (i *interpreter) panicString(p targetPanic) string {
 	}
 	return toString(p.v)
 }
+
+var dbgCount int
 
 func debugf(format string, args ...interface{}) {
 	fmt.Fprintf(os.Stderr, format, args...)
